@@ -155,14 +155,46 @@ def _wrap(res, meta):
     return res
 
 
+RNG_FUNCS = {
+    torch.rand: ("uniform", "shape"),
+    torch.rand_like: ("uniform", "like"),
+    torch.randn: ("normal", "shape"),
+    torch.randn_like: ("normal", "like"),
+}
+RNG_UNSUPPORTED = {"bernoulli", "randint", "randint_like", "randperm", "normal", "multinomial", "poisson", "uniform_", "normal_", "exponential_", "bernoulli_", "random_", "cauchy_", "log_normal_", "geometric_"}
+
+
+def rng_request(func, args, kwargs):
+    """(law, shape, dtype) of a torch RNG call"""
+    law, how = RNG_FUNCS[func]
+    if how == "like":
+        x = args[0]
+        return law, tuple(x.shape), kwargs.get("dtype") or x.dtype
+    shape = args
+    if len(shape) == 1 and isinstance(shape[0], (tuple, list, torch.Size)):
+        shape = tuple(shape[0])
+    if "size" in kwargs:
+        shape = tuple(kwargs["size"])
+    return law, tuple(int(v) for v in shape), kwargs.get("dtype") or torch.get_default_dtype()
+
+
 class SymMode(TorchFunctionMode):
-    def __init__(self, strict_meta=True):
+    def __init__(self, strict_meta=True, rng=None):
         super().__init__()
         self.strict_meta = strict_meta
+        self.rng = rng  # object with .draw(law, shape, dtype) -> tensor  (contract stub for torch.rand*/randn*)
 
     def __torch_function__(self, func, types, args=(), kwargs=None):
         kwargs = kwargs or {}
         name = getattr(func, "__name__", None) or str(func)
+        if func in RNG_FUNCS:
+            if self.rng is None:
+                raise S.Unsupported(f"random number generation ({name}) without an RNG contract stub")
+            law, shape, dtype = rng_request(func, args, kwargs)
+            OPS_USED.add("rng:" + name)
+            return self.rng.draw(law, shape, dtype)
+        if name in RNG_UNSUPPORTED:
+            raise S.Unsupported(f"random number generation through {name} has no contract stub")
         # ---- property getters
         if name == "__get__":
             prop = getattr(getattr(func, "__self__", None), "__name__", "")
@@ -231,3 +263,18 @@ def _strip_sym_scalars(o):
     if isinstance(o, dict):
         return {k: _strip_sym_scalars(v) for k, v in o.items()}
     return o
+
+
+class NativeRNGMode(TorchFunctionMode):
+    """native replay / stand-in: torch.rand*/randn* return the values recorded in (or drawn for) the witness"""
+
+    def __init__(self, rng):
+        super().__init__()
+        self.rng = rng
+
+    def __torch_function__(self, func, types, args=(), kwargs=None):
+        kwargs = kwargs or {}
+        if func in RNG_FUNCS:
+            law, shape, dtype = rng_request(func, args, kwargs)
+            return self.rng.draw(law, shape, dtype)
+        return func(*args, **kwargs)
